@@ -161,7 +161,7 @@ func staticPreemptShape(text string) bool {
 // C04: Compile accepts exactly the grammar.
 func TestC04_Grammar(t *testing.T) {
 	c := collector("C04", "grammar")
-	rapid.Check(t, func(t *rapid.T) {
+	check(t, func(t *rapid.T) {
 		doc := gen.Doc(t, gen.DocCfg{MaxDepth: 3, MaxFan: 3})
 		g := &gen.G{T: t, Root: doc, Cfg: fullCfg()}
 		e := g.Expr(doc, 0)
